@@ -13,6 +13,22 @@ from vlib.refs import yanny_model as M
 REFUSED = ['u1', 'u2', 'u4', 'u8', 'i1', 'b1', 'f2', 'c8', 'c16', 'O']
 
 
+_HDR_TYPES = {'npfloat': np.float64, 'npint32': np.int32, 'npint64': np.int64, 'npfloat32': np.float32, 'npbool': np.bool_,
+              'npstr': np.str_}
+
+
+def _hdr_text(v, vt):
+    """The accepted text forms of a header value: str() of it, or format() of it where that differs (numpy's float32
+    formats through Python float, '0.10000000149011612' for float32(0.1): the same value, spelled exactly)."""
+    o = _hdr_obj(v, vt)
+    return (str(o), '{0}'.format(o))
+
+
+def _hdr_obj(v, vt):
+    """The object handed to the writer for header value v of generator type vt; its text form is str() of it."""
+    return _HDR_TYPES[vt](v) if vt in _HDR_TYPES else v
+
+
 class C01(Check):
     ID = 'C01'
     RULE = ('random table sets (1-4 tables, 0-8 rows, 1-7 columns of i2/i4/i8/f4/f8, fixed-width byte strings, 1-D '
@@ -145,15 +161,24 @@ class C01(Check):
         nh = rng.randint(1, 6) if cls == 'headers' else rng.choice([0, 0, 1, 2])
         keys = set()
         for _ in range(nh):
-            k = M.ident(rng, 1, 8)
-            if rng.random() < 0.3:
+            k = M.pair_key(rng, 1, 8)
+            if rng.random() < 0.3 and k not in M.RESERVED_KEYS:
                 k = k.upper()
             if k.upper() in [n.upper() for n in names] or k.lower() in keys:
                 continue
             keys.add(k.lower())
-            vt = rng.choice(['int', 'float', 'str', 'str', 'empty', 'npfloat'])
-            if vt == 'int':
+            vt = rng.choice(['int', 'float', 'str', 'str', 'empty', 'npfloat', 'npint32', 'npint64', 'npfloat32', 'npbool',
+                             'bool', 'npstr'])
+            if vt in ('int', 'npint32'):
                 v = rng.randint(-10**9, 10**9)
+            elif vt == 'npint64':
+                v = rng.choice([rng.randint(-2**63, 2**63 - 1), rng.randint(-100, 100)])
+            elif vt in ('bool', 'npbool'):
+                v = rng.random() < 0.5
+            elif vt == 'npfloat32':
+                v = float(np.float32(rng.choice([rng.uniform(-1, 1), 1e30 * rng.random(), 0.1, 2.5])))
+            elif vt == 'npstr':
+                v = M.ident(rng, 1, 10)
             elif vt in ('float', 'npfloat'):
                 v = rng.choice([rng.uniform(-1, 1), 1e300 * rng.random(), 0.1, 2.5, rng.gauss(0, 1e-8)])
             elif vt == 'empty':
@@ -249,8 +274,8 @@ class C01(Check):
         out.expect(list(obj.pairs()) == keys, 'header', '%s: header keys %r != %r' % (where, list(obj.pairs()), keys))
         for k, v, vt in case['hdr']:
             if k in obj:
-                exp = str(np.float64(v)) if vt == 'npfloat' else str(v)
-                out.expect(obj[k] == exp, 'header', '%s: header %s = %r, expected text form %r' % (where, k, obj[k], exp))
+                exp = _hdr_text(v, vt)
+                out.expect(obj[k] in exp, 'header', '%s: header %s = %r, expected text form %r' % (where, k, obj[k], exp))
                 out.count('hdr_values_compared')
 
     def _nontrivial(self, case):
@@ -268,7 +293,7 @@ class C01(Check):
         if case['hdr']:
             hdr = {}
             for k, v, vt in case['hdr']:
-                hdr[k] = np.float64(v) if vt == 'npfloat' else v
+                hdr[k] = _hdr_obj(v, vt)
         kw = {}
         if case.get('default_names'):
             names_arg = None
@@ -301,7 +326,7 @@ class C01(Check):
                 a = M.build_array(t)
                 meta = {}
                 for key, v, vt in case['hdr']:
-                    meta[key] = np.float64(v) if vt == 'npfloat' else v
+                    meta[key] = _hdr_obj(v, vt)
                 tab = Table(a, meta=meta) if meta else Table(a)
                 f = fn + '.%d.par' % k
                 files.append(f)
@@ -309,8 +334,8 @@ class C01(Check):
                 back = Table.read(f, format='yanny', tablename=t['name'])
                 M.compare_table(out, np.asarray(back.as_array()), t, 'Table.read:%s' % t['name'], clause='table-api')
                 for key, v, vt in case['hdr']:
-                    exp = str(np.float64(v)) if vt == 'npfloat' else str(v)
-                    out.expect(back.meta.get(key) == exp, 'table-api', 'meta %s = %r expected %r' % (key, back.meta.get(key), exp))
+                    exp = _hdr_text(v, vt)
+                    out.expect(back.meta.get(key) in exp, 'table-api', 'meta %s = %r expected %r' % (key, back.meta.get(key), exp))
                     out.count('hdr_values_compared')
                 fresh = self.Y.yanny(f)
                 sub = dict(case, tables=[t])
